@@ -33,6 +33,9 @@ REQUIRED = ["DaeVerif.C03.Props." + n for n in (
     "udp_relay_record_is_at_most_cache_ttl_old", "tcp_relay_record_is_the_kernel_record",
     "lan_new_tcp_connection_reaches_relay_with_its_decision",
     "noninitial_fragments_pass_on_every_hook", "truncated_frames", "janitor_pressure_mode",
+    # phase 3
+    "endpoint_teardown_ends_tracking", "port53_udp_is_not_marked_wan_originated", "wan_opened_udp53_service_reply_is_routed",
+    "dns_relay_record_is_the_kernel_record",
     # composition with C02 (route() over the installed bytes) and C01 (first matching rule): Compose.lean
     "lan_new_tcp_connection_follows_userspace", "lan_new_tcp_connection_follows_first_match",
     "lan_new_udp_flow_follows_first_match",
@@ -139,6 +142,14 @@ def consumer_glue(ctx):
         if [x.strip() for x in handle_args.split(",")][2:5] != ["convergeSrc", "realDst", "routingResult"]:
             raise ValueError("handlePkt call changed: " + cp[H].strip())
         blkA, blkB, blkC = (_dedent(cp[x:y], ind - 2) for x, y in ((A, Ae), (B, Be), (C, Ce)))
+        # DNS ingress fast path (port 53): the record the DNS controller receives
+        D = next(k for k in range(t, A) if cp[k].strip() == "dnsRoutingResult := &bpfRoutingResult{")
+        _, De = _block(cp, D)
+        D2 = next(k for k in range(De, De + 3) if cp[k].strip().startswith("if rr, retrieveErr := c.core.RetrieveRoutingResult("))
+        # if / else-if chain: up to the closing brace at the same indentation that is not followed by `else`
+        indD = len(cp[D2]) - len(cp[D2].lstrip("\t"))
+        D2e = next(k for k in range(D2 + 1, D2 + 40) if cp[k].startswith("\t" * indD + "}") and cp[k].strip() == "}") + 1
+        blkD = _dedent(cp[D:De] + cp[D2:D2e], indD - 1)
     except (StopIteration, ValueError, AttributeError, OSError) as ex:
         ctx.say(f"TRANSLATOR-FAILED consumer glue (handleConn head / UDP ingress task not extractable): {ex!r}")
         return None
@@ -160,11 +171,16 @@ def consumer_glue(ctx):
     out += blkA + blkB
     out += ["\t\tused, fresh, delivered = routingResult, freshRoutingResult != nil, true"]
     out += blkC
-    out += ["\t}()", "\treturn", "}", ""]
+    out += ["\t}()", "\treturn", "}", "",
+            "// DNS ingress fast path (datagrams to port 53 with a DNS payload): the record handed to the DNS controller",
+            "func (c *ControlPlane) verifC03DnsRecord(src, realDst netip.AddrPort) *bpfRoutingResult {",
+            "\tconvergeSrc := common.ConvergeAddrPort(src)"]
+    out += blkD
+    out += ["\treturn dnsRoutingResult", "}", ""]
     outp = os.path.join(ctx.out, "c03_consumer_glue.go")
     open(outp, "w").write("\n".join(out))
     rc, o, _ = sh(["gofmt", "-l", outp], timeout=60)
-    ctx.log.write(f"consumer glue: tcp.go:{a+1}-{e}, control_plane.go:{cs+1}-{tk}, {A+1}-{Ae}, {B+1}-{Be}, {C+1}-{Ce} -> {outp}\n")
+    ctx.log.write(f"consumer glue: tcp.go:{a+1}-{e}, control_plane.go:{cs+1}-{tk}, {D+1}-{D2e} (DNS), {A+1}-{Ae}, {B+1}-{Be}, {C+1}-{Ce} -> {outp}\n")
     return {os.path.join(REPO, "control", "zz_verif_c03_consumer_glue.go"): outp}
 
 
@@ -240,7 +256,7 @@ def run(ctx):
         if seen_kinds[kind] <= 4:  # a handful of replays per kind of disagreement is enough
             pending.append((prio, len(pending), what, replay, key))
 
-    ctx.prove(["DaeVerif.C03.Props", "DaeVerif.C03.Compose", "DaeVerif.C03.Consumer", "DaeVerif.C03.Dae0Props", "DaeVerif.C03.EdgeProps", "DaeVerif.C03.Pressure"], ["DaeVerif.C03.Props"], ["DaeVerif/C03/*.lean"], extra_targets=["c03drv"])
+    ctx.prove(["DaeVerif.C03.Props", "DaeVerif.C03.Compose", "DaeVerif.C03.Consumer", "DaeVerif.C03.Dae0Props", "DaeVerif.C03.EdgeProps", "DaeVerif.C03.Pressure", "DaeVerif.C03.Teardown"], ["DaeVerif.C03.Props"], ["DaeVerif/C03/*.lean"], extra_targets=["c03drv"])
     ctx.required_theorems(REQUIRED)
 
     # ---- native build of /repo's CURRENT tproxy.c (unmodified; #included by the driver)
@@ -280,6 +296,22 @@ def run(ctx):
         rc, out, dt = sh(f"{cdrv} < {ops_p} > {c_p}", timeout=3000, env=env)
         ctx.log.write(f"$ c03 native driver on {n} [{dt:.1f}s rc={rc}] {out[-3000:]}\n")
         ops, cl = read_lines(ops_p), read_lines(c_p) if os.path.exists(c_p) else []
+        if "bpf_shim:" in out and "unregistered map" in out:
+            # a hook uses a BPF map the strict shim was not told about: a harness limitation, not a property violation
+            try:
+                defined = set(re.findall(r"\}\s*(\w+)\s+SEC\(\"\.maps\"\)", open(os.path.join(REPO, "control", "kern", "tproxy.c")).read()))
+                drv = open(os.path.join(cdir, "c03_driver.c")).read()
+                known_maps = set(re.findall(r"SHIM_REG_\w+\((\w+)\)", drv)) | set(re.findall(r"shim_map_register\(&(\w+)", drv))
+                cand = ", ".join(sorted(defined - known_maps))
+            except OSError:
+                cand = "?"
+            ctx.say(f"HARNESS-FAILED the TC programs touch a BPF map the native driver does not register (stream {n}): "
+                    f"{out.strip().splitlines()[-1][:200]}; maps defined in tproxy.c that harness/c/c03_driver.c does not know: {cand}")
+            return 2
+        if rc == 4 and cl and cl[-1] == "map-type-changed":
+            ctx.say("HARNESS-FAILED conn_state_map / routing_handoff_map / redirect_track is no longer BPF_MAP_TYPE_HASH: the native "
+                    "driver's map emulation (insert-unless-full) does not describe the new type; harness/c/c03_driver.c must be adapted")
+            return 2
         if rc != 0 or len(cl) != len(ops):
             bad = len(cl) + 1
             queue(1, f"native TC driver failed on stream {n} (rc={rc}, {len(cl)}/{len(ops)} answers): sanitizer report or crash inside tproxy.c: {out[-1200:]}",
@@ -292,9 +324,17 @@ def run(ctx):
     if rc != 0:
         ctx.say("HARNESS-FAILED (retrieve pass)", out[-3000:])
         return 2
+    try:
+        if json.load(open(os.path.join(ctx.out, "c03retr.stats.json")))["counters"].get("retr.mode.fallback"):
+            ctx.say("HARNESS-FAILED bpf(2) map creation is not permitted here: the second pass (real RetrieveRoutingResult, janitors, "
+                    "endpoint teardown and the relay's record lookup on the bytes the TC programs stored) needs real kernel hash maps "
+                    "(CAP_BPF / unprivileged_bpf_disabled=0); without them this check cannot say OK")
+            return 2
+    except (OSError, ValueError, KeyError):
+        pass
 
     n_frames = n_parse = n_retr = n_retr_skipped = n_const = n_twin_frames = n_diag_diffs = n_jan = n_jan_deleted = 0
-    n_use = n_use_skipped = n_use_cached = n_peer = n_peer_ok = n_d0 = n_d0_redirect = 0
+    n_rel = n_rel_deleted = n_use = n_use_skipped = n_use_cached = n_peer = n_peer_ok = n_d0 = n_d0_redirect = 0
     distinct = set()
     verdicts = collections.Counter()
     branch = collections.Counter()
@@ -334,6 +374,14 @@ def run(ctx):
                     n_use += 1
                     if " fresh=0 " in rt[i] and not rt[i].startswith("use=253:"):
                         n_use_cached += 1
+                continue
+            if kind == "rel":
+                merged.append(rt[i])
+                if rt[i] == "rel=unavailable":
+                    skip.add(i)
+                else:
+                    n_rel += 1
+                    n_rel_deleted += rt[i].count(";") + (1 if rt[i] != "rel=[]" else 0)
                 continue
             if kind in GO_ANSWERED:
                 merged.append(go[i])
@@ -385,6 +433,7 @@ def run(ctx):
                     "use": "the record the control plane works with (head of handleConn / UDP ingress task with its per-endpoint routing cache, regenerated from source, on the bytes the kernel program stored) differs from the model's consumer",
                     "peer": "tproxy_dae0peer_ingress (the consumer of cb[] on dae's veth peer) differs from the proved model",
                     "d0": "tproxy_dae0_ingress (the consumer of redirect_track: replies of dae to a captured client) differs from the proved model",
+                    "rel": "endpoint teardown (real UdpEndpoint.TrackUdpConnStateTuplePair + Close -> ReleaseUdpConnStateTuples on the stored bytes) deletes other conn_state entries than the model's release",
                     "press": "updateConnStateJanitorPressure (when the conn-state janitor halves its timeouts) differs from the model",
                     "hoexp": "routingHandoffExpired differs from the model"}.get(kind, "implementation differs from the proved model")
             queue(2, f"{what} at {n}:{ln}: impl `{im[:300]}` model `{mo[:300]}`",
@@ -455,7 +504,7 @@ def run(ctx):
                 _, _, sid, tag = op.split(" ")[:4]
                 cur = (sid, tag)
                 blocks[cur] = []
-            elif cur is not None and op.split(" ", 1)[0] in ("frame", "retr", "dump", "jan", "peer", "d0"):
+            elif cur is not None and op.split(" ", 1)[0] in ("frame", "retr", "dump", "jan", "peer", "d0", "rel"):
                 blocks[cur].append(i)
         for (sid, tag), idxs in blocks.items():
             if tag != "A" or (sid, "B") not in blocks:
@@ -532,6 +581,21 @@ def run(ctx):
                                  f"differing in one byte got verdicts {got} (expected ['2','0','0','0','0','0','0']): the mac_be packing "
                                  "at this caller does not produce the value the LPM key of a MAC rule holds",
                               {"ops": [o for o, _ in w[7 * ci:7 * ci + 7]], "impl": [c for _, c in w[7 * ci:7 * ci + 7]], "replay": replay_cmd})
+        w = per.get("wan-opened-dns-service-reply", [])
+        if len(w) == 8:
+            vs = [v(x[1]) for x in w]
+            wit["wan-opened-dns-service-reply"] = "".join(x or "?" for x in vs)
+            # frames: [wi q53, we r53, le q53, li r53, wi q5353, we r5353, le q5353, li r5353]
+            if vs[5] != "0" or vs[7] != "0":
+                queue(0, "the reply of a UDP service (port 5353) opened from the WAN side is not passed untouched: "
+                         f"WAN-hook reply v={vs[5]}, LAN-hook reply v={vs[7]} (expected 0/0)",
+                      {"ops": [o for o, _ in w[4:]], "impl": [c for _, c in w[4:]], "replay": replay_cmd})
+            if vs[1] != "0" or vs[3] != "0":
+                queue(0, "the reply of a UDP port-53 service opened from the WAN side is routed and captured instead of passing "
+                         f"untouched: wi 1.2.3.4:40000->192.168.1.10:53 then we reply v={vs[1]}; le ->192.168.1.20:53 then li reply "
+                         f"v={vs[3]} (expected 0/0; the same pairs on port 5353 give {vs[5]}/{vs[7]})",
+                      {"ops": [o for o, _ in w[:4]], "impl": [c for _, c in w[:4]], "replay": replay_cmd},
+                      key="c03-wan-opened-udp53-reply-captured")
         w = per.get("synack-parse-paths", [])
         if len(w) == 5:
             wit["synack-parse-paths"] = [w[0][1][:40], v(w[3][1]), v(w[4][1])]
@@ -558,10 +622,12 @@ def run(ctx):
     ctx.cov["janitor_rounds"] = {"rounds": n_jan, "entries_deleted": n_jan_deleted}
     ctx.cov["handover_consumers"] = {"dae0peer_ingress": n_peer, "dae0peer_accepted": n_peer_ok, "dae0_ingress": n_d0,
                                      "dae0_ingress_returned_to_origin": n_d0_redirect, "relay_record_lookups": n_use,
-                                     "relay_record_from_cache": n_use_cached, "relay_record_not_compared": n_use_skipped}
+                                     "relay_record_from_cache": n_use_cached, "relay_record_not_compared": n_use_skipped,
+                                     "endpoint_teardowns": n_rel, "endpoint_teardown_entries_deleted": n_rel_deleted}
     # ---- generator floors: an input class the check relies on must really have been exercised (below a floor the run is
     # not an OK but a harness failure, exit 2).  Quick-tier numbers; thorough is ~12x larger.
-    if "VERIF_C03_SCEN" not in os.environ and not pending and not ctx.proof_failures:
+    open_keys = {k.get("key") for k in ctx.known if k.get("kind") == "open"}
+    if "VERIF_C03_SCEN" not in os.environ and not [x for x in pending if x[4] not in open_keys] and not ctx.proof_failures:
         d, rp, hc = stats["counters"], rstats["counters"], ctx.cov["handover_consumers"]
         floors = [
             ("frames through li", verdicts["li:v=0"] + verdicts["li:v=2"] + verdicts["li:v=7"], 3000),
@@ -584,6 +650,7 @@ def run(ctx):
             ("dae0 replies returned", hc["dae0_ingress_returned_to_origin"], 300),
             ("relay record lookups", hc["relay_record_lookups"], 2500), ("relay records from the cache", hc["relay_record_from_cache"], 100),
             ("lookups for another destination", d.get("use.other-dst", 0), 200),
+            ("endpoint teardowns", n_rel, 150), ("entries deleted by endpoint teardown", n_rel_deleted, 60),
             ("scope-sensitive scenarios", d.get("scenario.scope-sensitive", 0), 30),
             ("MAC-packer witness frames", len(ctx.cov.get("witnesses", {}).get("mac-packers", "")), 21),
         ]
